@@ -93,9 +93,11 @@ func c16GenAmt(rt *rapid.T, label string, denom int) string {
 }
 
 var (
-	c16WithdrawModes  = []string{"below", "below", "below", "below", "tolock", "tolock", "tolock", "above", "above", "all", "all", "all", "allplus1", "one", "one", "raw", "raw", "raw", "zero"}
-	c16RedelModes     = []string{"all", "all", "all", "below", "below", "tolock", "tolock", "raw", "raw", "raw", "one"}
-	c16LockModes      = []string{"total", "total", "total", "total", "total", "totalplus1", "totalplus1", "totalminus1", "totalminus1", "half", "half", "half", "half", "zero", "raw", "raw", "raw", "u63", "maxu64", "over64", "same"}
+	c16WithdrawModes = []string{"below", "below", "below", "below", "tolock", "tolock", "tolock", "above", "above", "all", "all", "all", "allplus1", "one", "one", "raw", "raw", "raw", "zero"}
+	c16RedelModes    = []string{"all", "all", "all", "below", "below", "tolock", "tolock", "raw", "raw", "raw", "one"}
+	c16LockModes     = []string{"total", "total", "total", "total", "total", "totalplus1", "totalplus1", "totalminus1", "totalminus1", "half", "half", "half", "half", "zero", "raw", "raw", "raw", "u63", "maxu64", "over64", "same", "old", "old", "oldminus1", "oldplus1", "mid"}
+	// lock updates aimed at (current total power, old lock of the same vault] after the power fell below that lock
+	c16RelockModes    = []string{"old", "old", "oldminus1", "oldminus1", "totalplus1", "totalplus1", "mid", "mid", "oldplus1", "total"}
 	c16DelegateModes  = []string{"raw", "raw", "raw", "raw", "raw", "raw", "raw", "raw", "one", "balplus1", "zero", "reach", "reachminus1"}
 	c16StakeModes     = []string{"raw", "raw", "raw", "raw", "raw", "raw", "raw", "raw", "balplus1", "zero"}
 	c16WithdrawKinds  = []string{"unstake", "undelegate"}
@@ -169,7 +171,7 @@ func genC16(rt *rapid.T) c16Case {
 	nops := rapid.IntRange(12, 50).Draw(rt, "nops")
 	for i := 0; i < nops; i++ {
 		a := acct()
-		switch gen.Pick(rt, "opw", 10, 16, 9, 16, 8, 16, 3, 1, 4, 9) {
+		switch gen.Pick(rt, "opw", 10, 16, 9, 16, 8, 16, 3, 1, 4, 9, 6) {
 		case 0:
 			c.Ops = append(c.Ops, stake(a))
 		case 1:
@@ -188,6 +190,29 @@ func genC16(rt *rapid.T) c16Case {
 			c.Ops = append(c.Ops, c16Op{K: "mkvault", Vault: vault()})
 		case 8:
 			c.Ops = append(c.Ops, c16Op{K: "params", Set: gen.Pick(rt, "pset", 3, 5, 1, 2)})
+		case 10:
+			// scenario: the total power falls below an existing lock through a path no hook guards (governance removes
+			// a restaked denom from AllowedDenoms), then the same vault updates that lock to a value in
+			// (current total power, old lock] (and around its ends)
+			v1 := vault()
+			c.Ops = append(c.Ops, c16Op{K: "params", Set: 1}) // uband and uatom count
+			so := c16Op{K: "stake", A: a, D: 1, Mode: "raw", Amt: c16GenAmt(rt, "sd-amt", gen.Pick(rt, "sd-den", 2, 1))}
+			c.Ops = append(c.Ops, so)
+			lo := setlock(a, v1, gen.OneOf(rt, "sd-l1", "total", "total", "total", "totalminus1", "half"))
+			c.Ops = append(c.Ops, lo)
+			if gen.Chance(rt, "sd-l2", 1, 3) {
+				v2 := (v1 + 1 + gen.Uniform(rt, "sd-v2", len(c16Vaults)-1)) % len(c16Vaults)
+				c.Ops = append(c.Ops, setlock(a, v2, gen.OneOf(rt, "sd-l2m", "half", "total", "totalminus1")))
+			}
+			c.Ops = append(c.Ops, c16Op{K: "params", Set: gen.OneOf(rt, "sd-set", 0, 0, 0, 2)}) // uatom no longer counts
+			for n := gen.Range(rt, "sd-n", 1, 2); n > 0; n-- {
+				ro := setlock(a, v1, gen.OneOf(rt, "sd-re", c16RelockModes...))
+				ro.Tx = lo.Tx
+				c.Ops = append(c.Ops, ro)
+			}
+			if gen.Chance(rt, "sd-w", 1, 3) {
+				c.Ops = append(c.Ops, withdraw(a, gen.OneOf(rt, "sd-wm", "one", "all", "below")))
+			}
 		default:
 			// scenario: two vaults with different locks on one account, then withdrawals at the boundary,
 			// optionally a deactivation of the binding vault followed by another withdrawal
@@ -1075,6 +1100,21 @@ func runC16(c c16Case) *pbt.Verdict {
 				x = new(big.Int).Set(c16MaxU64)
 			case "over64":
 				x = new(big.Int).Set(c16Two64)
+			case "old", "oldminus1", "oldplus1", "mid":
+				// relative to this vault's existing lock (falls back to the total power when there is none)
+				x = new(big.Int).Set(p)
+				if l, had := m.locks[a][key]; had {
+					switch op.Mode {
+					case "old":
+						x = new(big.Int).Set(l)
+					case "oldminus1":
+						x = c16Sub(l, c16One)
+					case "oldplus1":
+						x = c16Add(l, c16One)
+					default: // half way between the current total power and the old lock (rounded up)
+						x = new(big.Int).Rsh(c16Add(c16Add(p, l), c16One), 1)
+					}
+				}
 			case "same":
 				x = new(big.Int).Set(p)
 				for _, other := range c16Vaults {
@@ -1112,6 +1152,32 @@ func runC16(c c16Case) *pbt.Verdict {
 				ok = err == nil
 			}
 			where = fmt.Sprintf("%s vault %q power %s (total power %s)", where, key, x, p)
+			if old, had := m.locks[a][key]; had {
+				where = fmt.Sprintf("%s, old lock %s", where, old)
+				if p.Cmp(old) < 0 && wasActive {
+					// region: the total power is below the lock this vault already holds
+					class("setlock-while-power-below-old-lock")
+					v.Count("setlock_while_power_below_old_lock", 1)
+					switch {
+					case x.Cmp(p) > 0 && x.Cmp(old) <= 0:
+						class("setlock-in-(power,oldlock]")
+						v.Count("setlock_in_(power,oldlock]", 1)
+						if x.Cmp(old) == 0 {
+							class("setlock-equals-oldlock-above-power")
+						}
+						if x.Cmp(c16Add(p, c16One)) == 0 {
+							class("setlock-power+1-within-oldlock")
+						}
+						if !ok {
+							v.Count("setlock_in_(power,oldlock]_rejected", 1)
+						}
+					case x.Cmp(old) > 0:
+						class("setlock-above-oldlock-while-below")
+					case ok:
+						class("setlock-lowered-to-within-power-while-below")
+					}
+				}
+			}
 			if ok {
 				if x.Cmp(p) > 0 {
 					v.Failf("C16/lock-above-power", "%s succeeded above the current total power", where)
